@@ -1,3 +1,6 @@
+\* Example instantiation (the constants of the tree at the time of writing).  `./check C08` does NOT
+\* use this file: it writes DeadlinesMC_gen.cfg from the constants the harness binary `consts` prints.
+\* Slack1 = eu - ed - d + 1 (TLC cfg files cannot hold negative numbers).
 SPECIFICATION Spec
 CONSTANTS
   CCB = 36
@@ -10,7 +13,7 @@ CONSTANTS
   FAR = 2016
   H0 = 100
   OffFinal = {38,39,40,41,42,43}
-  OffFwdA = {3,4,5,6}
+  OffFwdA = {2,3,4,5,6,7}
   OffFwdB = {41,42}
   Deltas = {48,49,50,51}
   Slack1 = {0,1,2}
